@@ -421,7 +421,7 @@ namespace
 			{
 				extTypeInfo.Size = metaInfo.FixedSeq;
 				extTypeInfo.DataOffset = 1 + metaInfo.DataSize;
-				if (pos + extTypeInfo.DataOffset < inputData.size())
+				if (pos + extTypeInfo.DataOffset <= inputData.size())
 				{
 					extTypeInfo.ExtTypeCode = inputData[pos + 1];
 					// Currently only timestamp is specified as extension type
@@ -438,7 +438,7 @@ namespace
 			{
 				extTypeInfo.Size = ReadExtSize(metaInfo.ExtSize, inputData, pos + 1);
 				extTypeInfo.DataOffset = 1 + metaInfo.DataSize + metaInfo.ExtSize;
-				if (pos + extTypeInfo.DataOffset < inputData.size())
+				if (pos + extTypeInfo.DataOffset <= inputData.size())
 				{
 					extTypeInfo.ExtTypeCode = inputData[pos + 1 + metaInfo.DataSize];
 					// Currently only timestamp is specified as extension type
